@@ -14,7 +14,7 @@ META = {
 MANIFEST_ENTRY = {
     "level_text": "Deductive proof, for all target weights, prior holdings, bases and cash fractions, of what StrategyBase.rebalance trades (call-log clauses on every exit of the real body) "
     "and, as lemmas over those clauses plus allocate's budget clauses, that the targeted child reaches (1-cash)*w exactly in the frictionless fractional case.",
-    "level_note": "Reals not floats; close is used through a frame contract (its liquidation clause is not proved; flatten's is, in C16); the integer/cost case inherits C05's one-unit bound; the end-to-end weight after costs and whole-unit rounding is exercised only by the bounded stand-in c06_rebalance.",
+    "level_note": "Reals not floats; close is verified on a fresh tree (root not stale): KeyError iff unknown child, one trade of minus the child's value (position for fixed income) with the caller's update flag, position zero afterwards up to the code's is_zero; the integer/cost case inherits C05's one-unit bound; the end-to-end weight after costs and whole-unit rounding is exercised only by the bounded stand-in c06_rebalance.",
     "technique": "contract-based deductive verification: VCs from the real AST (pyvc) + z3; ghost call log; lemmas over contract clauses",
 }
 
@@ -22,6 +22,7 @@ MANIFEST_ENTRY = {
 def tasks(tier, seed):
     return [
         func("bt.core.StrategyBase.flatten"),
+        func("bt.core.StrategyBase.close"),
         func("bt.core.StrategyBase.rebalance"),
         func("bt.core.SecurityBase.allocate"),
         *UPDATE_ALL,
